@@ -31,6 +31,7 @@ def required_cells(tier):
     req["negative-leading"] = 100
     req["history:forms-after-derived-planes-moved"] = 50
     req["line:support-equals-direction"] = 300
+    req["plane:three-points-two-of-which-hash-alike"] = 300
     req["plane:normal-components-up-to-5"] = 250 if tier == "quick" else 900
     return req
 
@@ -54,6 +55,20 @@ def cases(rng, budget, widx, nworkers, tier):
             yield {"k": "plane", "p": gen.rpt(rng), "n": n, "ls": idx}
             yield {"k": "line", "p": gen.rpt(rng), "d": n, "ls": idx}
             yield {"k": "line", "p": n, "d": n, "ls": idx, "special": "support-equals-direction"}
+    # three-point planes two of whose points differ only in a coordinate -1 against -2 (CPython hashes those alike)
+    for _ in range(40 if tier == "quick" else 400):
+        c = rng.randrange(3)
+        u, w = rng.choice((0, 1)), rng.choice((0, 1))
+        A, B = gen.slab_pt(c, -2, u, w), gen.slab_pt(c, -1, u, w)
+        if rng.random() < 0.3:
+            A, B = gen.slab_pt(c, -2, -1, w), gen.slab_pt(c, -1, -2, w)
+        Cp = gen.rpt(rng, 3, (1, 1, 2))
+        n = K.cross(K.sub(B, A), K.sub(Cp, A))
+        if n == (0, 0, 0):
+            continue
+        tri = [A, B, Cp]
+        rng.shuffle(tri)
+        yield {"k": "plane", "p": tri[0], "n": gen._reduce(n), "ls": rng.getrandbits(30), "tri": tri}
     # wider normals / directions (|c| <= 5: pivots that are thirds, fifths, sevenths), sampled in quick, all in thorough
     wide = [n for n in _dirs(5) if max(abs(c) for c in n) > 3]
     for j, n in enumerate(wide):
@@ -231,6 +246,9 @@ def judge(case):
         # three-point form contains its points
         u, v = gen._plane_basis(n)
         tri = [p, K.add(p, u), K.add(p, v)]
+        if case.get("tri"):
+            tri = [tuple(q) for q in case["tri"]]
+            mu.cell("plane:three-points-two-of-which-hash-alike")
         pts = [G.Point(*[float(c) for c in q]) for q in tri]
         Q, exc, _ = M.call(lambda a, b, c: G.Plane(a, b, c), *pts)
         if exc is not None:
